@@ -153,6 +153,100 @@ fn cursors(a: &Args, o: &mut Obs) {
     }
 }
 
+/// `BytesMut` as a `Buf` across the front offset at which the inline representation no longer fits its pointer-tag bits
+/// (`usize::MAX >> 5`): only reachable on a 32-bit target (Miri i686) with a buffer above 128 MiB. The cursor laws
+/// must hold for the advance that crosses that mark, bare and through Take / Chain / `&mut`.
+fn bigadv(a: &Args, o: &mut Obs) {
+    use bytes::{Buf, BytesMut};
+    let mark = (u32::MAX >> 5) as usize; // 2^27 - 1: the 32-bit limit of the offset bits
+    let n = mark + 4096 + a.usize("extra", 0);
+    let tail = 48usize;
+    let which = a.usize("shard", 0);
+    for w in 0..4usize {
+        if a.get("nshards").is_some() && w != which % 4 {
+            continue;
+        }
+        let case = format!("bigadv:{w}");
+        vharness::out::journal(&case);
+        let mut m = BytesMut::zeroed(n);
+        for i in 0..tail {
+            m[n - tail + i] = (i as u8).wrapping_mul(5).wrapping_add(1);
+        }
+        let want_tail: Vec<u8> = m[n - tail..].to_vec();
+        let steps = [mark - 7, 3, 10, 4096 - 6 - tail - 8, 8];
+        let mut left = n;
+        let mut bad: Option<String> = None;
+        let check = |b: &dyn Buf, left: usize, what: &str| -> Option<String> {
+            if b.remaining() != left {
+                return Some(format!("{what}: remaining()={} expected {left}", b.remaining()));
+            }
+            if b.chunk().len() != left {
+                return Some(format!("{what}: chunk().len()={} expected {left}", b.chunk().len()));
+            }
+            None
+        };
+        match w {
+            0 => {
+                for (i, &k) in steps.iter().enumerate() {
+                    m.advance(k);
+                    left -= k;
+                    bad = bad.or(check(&m, left, &format!("bare BytesMut after advance #{i} ({k})")));
+                }
+                if m[..] != want_tail[..] {
+                    bad = bad.or(Some("bare BytesMut: the bytes left after the advances are not the tail of the buffer".into()));
+                }
+            }
+            1 => {
+                let mut t = m.take(usize::MAX);
+                for (i, &k) in steps.iter().enumerate() {
+                    t.advance(k);
+                    left -= k;
+                    bad = bad.or(check(&t, left, &format!("Take(BytesMut) after advance #{i} ({k})")));
+                }
+                if t.get_ref()[..] != want_tail[..] {
+                    bad = bad.or(Some("Take(BytesMut): wrong bytes left".into()));
+                }
+            }
+            2 => {
+                let mut c = m.chain(&b"xy"[..]);
+                for (i, &k) in steps.iter().enumerate() {
+                    c.advance(k);
+                    left -= k;
+                    if c.remaining() != left + 2 || c.chunk().len() != left {
+                        bad = bad.or(Some(format!("Chain(BytesMut, slice) after advance #{i} ({k}): remaining()={} chunk().len()={} expected {} / {left}", c.remaining(), c.chunk().len(), left + 2)));
+                    }
+                }
+                let mut out = vec![0u8; tail];
+                c.copy_to_slice(&mut out);
+                if out != want_tail || c.remaining() != 2 {
+                    bad = bad.or(Some("Chain(BytesMut, slice): copy_to_slice after the advances returned the wrong bytes".into()));
+                }
+            }
+            _ => {
+                let r: &mut BytesMut = &mut m;
+                let mut rr = r;
+                for (i, &k) in steps.iter().enumerate() {
+                    Buf::advance(&mut rr, k);
+                    left -= k;
+                    bad = bad.or(check(&rr, left, &format!("&mut BytesMut after advance #{i} ({k})")));
+                }
+                let got = Buf::copy_to_bytes(&mut rr, tail);
+                if got[..] != want_tail[..] {
+                    bad = bad.or(Some("&mut BytesMut: copy_to_bytes after the advances returned the wrong bytes".into()));
+                }
+            }
+        }
+        o.inc("cases");
+        o.inc("bigadv_cases");
+        o.add("steps", steps.len() as u64);
+        o.cell(format!("bigadv|w{w}|{}", if cfg!(target_pointer_width = "32") { "32bit-crosses-mark" } else { "64bit" }));
+        if let Some(d) = bad {
+            o.viol("C09", "advance-across-offset-limit", &case, &format!("{d} (buffer of {n} bytes, mark {mark})"));
+        }
+    }
+    o.sample(format!("bigadv: BytesMut::zeroed({n}) advanced by {:?} (the third advance crosses 2^27-1), bare / Take / Chain / &mut", [mark - 7, 3, 10]));
+}
+
 fn frag(a: &Args, o: &mut Obs) {
     let shard = a.usize("shard", 0);
     let nshards = a.usize("nshards", 1).max(1);
@@ -435,6 +529,7 @@ fn main() {
         "readers" => readers(&a, &mut o),
         "frag" => frag(&a, &mut o),
         "cursors" => cursors(&a, &mut o),
+        "bigadv" => bigadv(&a, &mut o),
         "getters" => getters_tbl(&a, &mut o),
         "writers" => vharness::bufx::wrt::writers(&a, &mut o),
         "putters" => vharness::bufx::wrt::putters(&a, &mut o),
